@@ -16,6 +16,10 @@
     `build_eventID_injective`                                         hashed fields: every field but `unsigned` / `signatures`;
                                                                       at the level of `EventBuilder.Build`: two builds with the
                                                                       same ID agree on every hashed field
+  * `build_eventID_injective_proto` / `build_differ_eventID_ne`       … i.e. on type, sender, room ID, state key, prev / auth events,
+                                                                      redacts, depth, content (canonical form), clock and origin;
+                                                                      contrapositive: proto-events differing in any of these get
+                                                                      different IDs
   * `eventID_alphabet`                                                `$` + 43 characters of the prescribed base64 alphabet
   Room version 12:
   * `v12_create_roomID`, `v12_auth_first`
@@ -1308,5 +1312,175 @@ example : (match builtID (exMember b!"a" none) b!"c2ln", builtID (exMember b!"b"
       builtID (exMember b!"a" (some (.obj [(b!"age", .num b!"7")]))) b!"eHl6" with
   | some i1, some i2, some i3 => i1 != i2 && i1 == i3 && !i1.isEmpty
   | _, _, _ => false) = true := by decide +kernel
+
+/-! ## … and at the level of the proto-event: every hashed input is determined by the event ID -/
+
+/-- the bytes the content hash of a `Build` result covers (event format 2), in terms of the proto-event, the clock and
+    the origin: the canonical encoding of the struct marshalling without `event_id`, `signatures`, `unsigned` -/
+theorem build_hashed_members {H : Bytes → Bytes} {ver : Bytes} {row : VGen.VersionRow} (hrow : rowOf ver = some row)
+    (hfmt : row.eventFormat = 2) {pe : EventBuild.Proto} {now : Nat} {origin kid rand16 sig : Bytes} {e : PDU}
+    (hpe : ProtoOk pe) (hb : EventBuild.build H ver pe now origin kid rand16 sig = .ok e) :
+    ∃ content eid, pe.content = some content ∧
+      hashedBytes e.obj = encodeCanon (.obj ((deleteFirst b!"event_id"
+        (membersOf pe content (pe.prev.map JVal.str) (pe.auth.map JVal.str) eid now origin)).filter hashP)) ∧
+      (JVal.obj ((deleteFirst b!"event_id"
+        (membersOf pe content (pe.prev.map JVal.str) (pe.auth.map JVal.str) eid now origin)).filter hashP)).numsOk = true := by
+  obtain ⟨row', signed, p, hrow', hsm, henf, hnd, hp, ht, hcf⟩ := build_ok hb
+  have er : row' = row := by rw [hrow] at hrow'; exact (Option.some.inj hrow').symm
+  subst er
+  have SF := signedFacts hsm
+  have hnum := signed_numsOk hpe hsm
+  have hpj := parse_canon_text hnum hp
+  rw [hpj] at ht
+  obtain ⟨fmt, id, hf, _, _, _, hE, _, _⟩ := trustedCore_shape ht
+  have hkeys : ∀ kv ∈ signed, kv.1 ∈ allKeys := by
+    intro kv hkv
+    rcases SF.keys kv hkv with h | h
+    · rw [h]; exact List.mem_cons_self
+    · exact List.mem_cons_of_mem _ h
+  obtain ⟨content, prev, auth, eid, ms, sigs, ns, hc, hrefs, hms, _, _, _, hsigned⟩ := signedMembers_ok hsm
+  unfold RefsOf at hrefs
+  rw [if_neg (by simp [hfmt])] at hrefs
+  rw [if_pos (by simp [hfmt])] at hms
+  have hfilter : signed.filter hashP = ms.filter hashP := by
+    rw [hsigned, filter_setFirst hashP _ _ (hashP_key _ (Or.inl rfl)), filter_setFirst hashP _ _ (hashP_key _ (Or.inr rfl))]
+  rw [hrefs.1, hrefs.2] at hms
+  refine ⟨content, eid, hc, ?_, ?_⟩
+  · subst hE
+    show hashedBytes (canonMembers signed) = _
+    rw [IdInj.hashedBytes_canon hnd hkeys, hfilter, hms]
+  · rw [← hms, ← hfilter]
+    have := numsOk_obj_forall hnum
+    exact numsOk_obj_of_forall (fun kv hkv => this kv (List.mem_filter.mp hkv).1)
+
+/-- **C03 at the level of the proto-event: the event ID determines every hashed input of `Build`.**  Two successful builds
+    in one room version of event format 2 (room versions 3 and later) — any two proto-events whose raw-JSON inputs are
+    JSON values, any times, origins, key IDs, signature bytes — that return events with the same ID were given the same
+    type, sender, room ID, state key (absent vs present included), prev- and auth-event lists, redacts, depth, the same
+    content up to member order and the spelling of zero (both contents are present: `Build` fails without one), the same
+    clock reading (`origin_server_ts`) and the same origin.  What may differ: `unsigned`, `signatures`, the key ID, the
+    signature — exactly what the property excepts.  (`prev_state`, the last hashed member, is a function of the state key.) -/
+theorem build_eventID_injective_proto {H : Bytes → Bytes} (hH : Function.Injective H) {ver : Bytes} {row : VGen.VersionRow}
+    (hrow : rowOf ver = some row) (hfmt : row.eventFormat = 2)
+    {pe1 pe2 : EventBuild.Proto} {now1 now2 : Nat} {origin1 origin2 kid1 kid2 rand1 rand2 sig1 sig2 : Bytes} {e1 e2 : PDU}
+    (hpe1 : ProtoOk pe1) (hpe2 : ProtoOk pe2)
+    (hb1 : EventBuild.build H ver pe1 now1 origin1 kid1 rand1 sig1 = .ok e1)
+    (hb2 : EventBuild.build H ver pe2 now2 origin2 kid2 rand2 sig2 = .ok e2)
+    (hid : eventID H e1 = eventID H e2) :
+    pe1.type = pe2.type ∧ pe1.sender = pe2.sender ∧ pe1.roomID = pe2.roomID ∧ pe1.stateKey = pe2.stateKey ∧
+    pe1.prev = pe2.prev ∧ pe1.auth = pe2.auth ∧ pe1.redacts = pe2.redacts ∧ pe1.depth = pe2.depth ∧
+    pe1.content.map (fun c => c.sorted.normNums) = pe2.content.map (fun c => c.sorted.normNums) ∧
+    now1 = now2 ∧ origin1 = origin2 := by
+  obtain ⟨hbytes, _⟩ := build_eventID_injective hH hrow hfmt hpe1 hpe2 hb1 hb2 hid
+  obtain ⟨c1, eid1, hc1, hm1, hnum1⟩ := build_hashed_members hrow hfmt hpe1 hb1
+  obtain ⟨c2, eid2, hc2, hm2, hnum2⟩ := build_hashed_members hrow hfmt hpe2 hb2
+  rw [hm1, hm2] at hbytes
+  have hcan := C01.encodeCanon_injective _ _ hnum1 hnum2 hbytes
+  rw [canon_obj, canon_obj] at hcan
+  have hm := JVal.obj.inj hcan
+  have hn1 := (membersOf_keys pe1 c1 (pe1.prev.map JVal.str) (pe1.auth.map JVal.str) eid1 now1 origin1).nodup buildKeys_nodup
+  have hn2 := (membersOf_keys pe2 c2 (pe2.prev.map JVal.str) (pe2.auth.map JVal.str) eid2 now2 origin2).nodup buildKeys_nodup
+  have key : ∀ k : Bytes, hashP (k, .null) = true → b!"event_id" ≠ k →
+      (lookupExact (membersOf pe1 c1 (pe1.prev.map JVal.str) (pe1.auth.map JVal.str) eid1 now1 origin1) k).map (fun v => v.sorted.normNums) =
+      (lookupExact (membersOf pe2 c2 (pe2.prev.map JVal.str) (pe2.auth.map JVal.str) eid2 now2 origin2) k).map (fun v => v.sorted.normNums) := by
+    intro k hk hke
+    rw [← IdInj.hashed_lookup hn1 k hk hke, ← IdInj.hashed_lookup hn2 k hk hke, hm]
+  have L1 := IdInj.membersOf_lookups pe1 c1 (pe1.prev.map JVal.str) (pe1.auth.map JVal.str) eid1 now1 origin1
+  have L2 := IdInj.membersOf_lookups pe2 c2 (pe2.prev.map JVal.str) (pe2.auth.map JVal.str) eid2 now2 origin2
+  refine ⟨?_, ?_, ?_, ?_, ?_, ?_, ?_, ?_, ?_, ?_, ?_⟩
+  · have := key b!"type" (by decide) (by decide)
+    rw [L1.type, L2.type] at this
+    simpa [JVal.sorted, JVal.normNums] using this
+  · have := key b!"sender" (by decide) (by decide)
+    rw [L1.sender, L2.sender] at this
+    simpa [JVal.sorted, JVal.normNums] using this
+  · have := key b!"room_id" (by decide) (by decide)
+    rw [L1.roomID, L2.roomID] at this
+    exact IdInj.optStr_inj this
+  · have := key b!"state_key" (by decide) (by decide)
+    rw [L1.stateKey, L2.stateKey] at this
+    cases h1 : pe1.stateKey <;> cases h2 : pe2.stateKey <;> rw [h1, h2] at this <;>
+      simp [JVal.sorted, JVal.normNums] at this ⊢
+    exact this
+  · have := key b!"prev_events" (by decide) (by decide)
+    rw [L1.prev, L2.prev] at this
+    simp only [Option.map_some, IdInj.canon_strs, Option.some.injEq, JVal.arr.injEq] at this
+    exact IdInj.map_str_inj this
+  · have := key b!"auth_events" (by decide) (by decide)
+    rw [L1.auth, L2.auth] at this
+    simp only [Option.map_some, IdInj.canon_strs, Option.some.injEq, JVal.arr.injEq] at this
+    exact IdInj.map_str_inj this
+  · have := key b!"redacts" (by decide) (by decide)
+    rw [L1.redacts, L2.redacts] at this
+    exact IdInj.optStr_inj this
+  · have := key b!"depth" (by decide) (by decide)
+    rw [L1.depth, L2.depth] at this
+    simp only [Option.map_some, JVal.sorted, JVal.normNums, IdInj.encodeNum_intLit, Option.some.injEq, JVal.num.injEq] at this
+    exact IdInj.intLit_inj this
+  · have := key b!"content" (by decide) (by decide)
+    rw [L1.content, L2.content] at this
+    rw [hc1, hc2]; exact this
+  · have := key b!"origin_server_ts" (by decide) (by decide)
+    rw [L1.ts, L2.ts] at this
+    simp only [Option.map_some, JVal.sorted, JVal.normNums, IdInj.encodeNum_natDigits, Option.some.injEq, JVal.num.injEq] at this
+    exact IdInj.natDigits_inj this
+  · have := key b!"origin" (by decide) (by decide)
+    rw [L1.origin, L2.origin] at this
+    simpa [JVal.sorted, JVal.normNums] using this
+
+
+/-- **C03, literally: two events built from proto-events that differ in a field other than `unsigned` / `signatures`
+    get different IDs** (contrapositive of `build_eventID_injective_proto`; so do two builds of the same proto-event at
+    different times or for different origins) -/
+theorem build_differ_eventID_ne {H : Bytes → Bytes} (hH : Function.Injective H) {ver : Bytes} {row : VGen.VersionRow}
+    (hrow : rowOf ver = some row) (hfmt : row.eventFormat = 2)
+    {pe1 pe2 : EventBuild.Proto} {now1 now2 : Nat} {origin1 origin2 kid1 kid2 rand1 rand2 sig1 sig2 : Bytes} {e1 e2 : PDU}
+    (hpe1 : ProtoOk pe1) (hpe2 : ProtoOk pe2)
+    (hb1 : EventBuild.build H ver pe1 now1 origin1 kid1 rand1 sig1 = .ok e1)
+    (hb2 : EventBuild.build H ver pe2 now2 origin2 kid2 rand2 sig2 = .ok e2)
+    (hdiff : pe1.type ≠ pe2.type ∨ pe1.sender ≠ pe2.sender ∨ pe1.roomID ≠ pe2.roomID ∨ pe1.stateKey ≠ pe2.stateKey ∨
+      pe1.prev ≠ pe2.prev ∨ pe1.auth ≠ pe2.auth ∨ pe1.redacts ≠ pe2.redacts ∨ pe1.depth ≠ pe2.depth ∨
+      pe1.content.map (fun c => c.sorted.normNums) ≠ pe2.content.map (fun c => c.sorted.normNums) ∨
+      now1 ≠ now2 ∨ origin1 ≠ origin2) :
+    eventID H e1 ≠ eventID H e2 := by
+  intro hid
+  obtain ⟨a1, a2, a3, a4, a5, a6, a7, a8, a9, a10, a11⟩ := build_eventID_injective_proto hH hrow hfmt hpe1 hpe2 hb1 hb2 hid
+  rcases hdiff with h | h | h | h | h | h | h | h | h | h | h
+  · exact h a1
+  · exact h a2
+  · exact h a3
+  · exact h a4
+  · exact h a5
+  · exact h a6
+  · exact h a7
+  · exact h a8
+  · exact h a9
+  · exact h a10
+  · exact h a11
+
+/-- room version 10 is registered with event format 2 -/
+theorem v10_format : (match rowOf b!"10" with
+  | some row => row.eventFormat == 2
+  | none => false) = true := by decide
+
+/-- the theorem on the concrete builds above (`Hid`, room version 10): the two member events that differ in `displayname`
+    only — whatever `Build` returns for them, at any two times, for any origins, key IDs and signature bytes — have different
+    IDs (the evaluated example above shows that both builds succeed) -/
+example {now1 now2 : Nat} {o1 o2 k1 k2 r1 r2 s1 s2 : Bytes} {e1 e2 : PDU}
+    (hb1 : EventBuild.build Hid b!"10" (exMember b!"a" none) now1 o1 k1 r1 s1 = .ok e1)
+    (hb2 : EventBuild.build Hid b!"10" (exMember b!"b" (some (.obj [(b!"age", .num b!"7")]))) now2 o2 k2 r2 s2 = .ok e2) :
+    eventID Hid e1 ≠ eventID Hid e2 := by
+  have hv := v10_format
+  cases hr : rowOf b!"10" with
+  | none => rw [hr] at hv; cases hv
+  | some row =>
+    rw [hr] at hv
+    have hfmt : row.eventFormat = 2 := by simpa using hv
+    refine build_differ_eventID_ne Hid_injective hr hfmt
+      ⟨fun c h => by cases h; decide, fun u h => (by cases h), fun s h => (by cases h)⟩
+      ⟨fun c h => by cases h; decide, fun u h => by cases h; decide, fun s h => (by cases h)⟩ hb1 hb2 ?_
+    refine Or.inr (Or.inr (Or.inr (Or.inr (Or.inr (Or.inr (Or.inr (Or.inr (Or.inl ?_))))))))
+    intro h
+    exact absurd (congrArg (fun o : Option JVal => o.map encode) h) (by decide +kernel)
 
 end V.C03
